@@ -83,6 +83,20 @@ def c01(tier, rng):
         out.append(case("t%d" % n[0], pre + script, list(tags) + ["w%d" % wm], **meta))
         n[0] += 1
     cf, wf, pf = connect_fields(rng), will_fields(rng), publish_fields(rng)
+    # a will whose payload is empty is still a will; will user properties and CONNECT user properties in every call order
+    for extra in ("", "wq=1", "wq=2 wr=1", "wr=1", "wdi=5 wq=1"):
+        add(("connect wt=%s wp= %s" % (hx(b"w/t"), extra)).strip(), ["connect", "will", "empty-will-payload"])
+    wu = ["wup=%s:%s" % (hx(b"w%d" % k), hx(b"v%d" % k)) for k in range(3)]
+    cu = ["up=%s:%s" % (hx(b"c%d" % k), hx(b"x%d" % k)) for k in range(2)]
+    for order in ([wu[0], wu[1]], [wu[0], wu[1], wu[2]], [cu[0], wu[0]], [wu[0], cu[0]], [cu[0], wu[0], cu[1], wu[1]], [wu[0], cu[0], wu[1]]):
+        add("connect wt=%s wp=%s %s" % (hx(b"w/t"), hx(b"bye"), " ".join(order)), ["connect", "will", "user-property-order"])
+    # PUBLISH properties of 128 bytes and more (a two-byte Property Length), options given in both orders
+    for q in (0, 1, 2):
+        for n_ in (100, 118, 119, 120, 130, 300):
+            add(PRE + " ; start 0 0 pub q=%d t=%s pl=%s cd=%s ; poll 0 ; poll 0" % (q, hx(b"t/x"), hx(b"payload"), hx(b"c" * n_)), ["publish", "big-props"])
+        add(PRE + " ; start 0 0 pub q=%d t=%s rt=%s pl=%s ; poll 0 ; poll 0" % (q, hx(b"services/set"), hx(b"clients/replies"), hx(b"p")), ["publish", "option-order"])
+        add(PRE + " ; start 0 0 pub q=%d rt=%s t=%s pl=%s ; poll 0 ; poll 0" % (q, hx(b"clients/replies"), hx(b"services/set"), hx(b"p")), ["publish", "option-order"])
+        add(PRE + " ; start 0 0 pub q=%d ct=%s t=%s rt=%s cd=%s pl=%s ; poll 0 ; poll 0" % (q, hx(b"text/plain"), hx(b"a/b"), hx(b"r/s"), hx(b"id"), hx(b"p")), ["publish", "option-order"])
     # exactly one packet per submitted request, in submission order - also when the caller drops the future between
     # submitting the request (first poll) and the Context getting to it
     reqs = {"pub0": "pub q=0 t=61 pl=30", "pub1": "pub q=1 t=61 pl=31", "sub": "sub f=61:1000", "unsub": "unsub f=61", "ping": "ping",
@@ -330,6 +344,16 @@ def c02(tier, rng):
     add(PRE + " ; deliver e000", ["disconnect", "short0"])
     add(PRE + " ; deliver e00100", ["disconnect", "short1"])
     add(PRE + " ; deliver e0020000", ["disconnect", "long-empty"])
+    # boundary values that are legal: Message Expiry Interval 0; an empty topic name when a Topic Alias is given
+    for q in (0, 1, 2):
+        add(sub_prefix() + " ; deliver %s ; pollstream 0" % hx(M.publish(b"t", b"x", q, 9 if q else None, ps=[(2, 0), (11, 1)])), ["publish", "expiry0"])
+        add("connect tam=10 ; deliver %s ; run ; start 0 0 sub f=61:2000 ; poll 0 ; deliver %s ; poll 0 ; tostream 0 ; deliver %s ; deliver %s ; pollstream 0 ; pollstream 0"
+            % (hx(M.connack()), hx(M.suback(1, [2])), hx(M.publish(b"named/topic", b"first", q, 9 if q else None, ps=[(35, 5), (11, 1)])),
+               hx(M.publish(b"", b"second", q, 10 if q else None, ps=[(35, 5), (11, 1)]))), ["publish", "topic-alias"])
+    for order in ([(22, b"data"), (21, b"m")], [(31, b"rs"), (22, b"d"), (38, (b"k", b"v")), (21, b"method")], [(21, b"m"), (22, b"data")]):
+        add("connect am=6d ad=01 ; deliver " + hx(M.connack(0, 0, order)), ["connack", "auth-order"])
+        add("connect am=6d ad=01 ; deliver " + hx(M.connack(0, 135, order)), ["connack", "auth-order"])
+        add("connect am=6d ad=01 ; deliver %s ; auth r=24 am=6d ad=02 ; deliver %s" % (hx(M.auth(24, [(21, b"m")])), hx(M.connack(0, 0, order))), ["connack", "auth-order", "via-auth"])
     # the two-byte packets (PINGRESP, DISCONNECT / AUTH with remaining length 0) at the very end of a read that also brought
     # other packets: seen like any other
     for lead in (M.publish(b"t", b"x", ps=[(11, 1)]), M.puback(77), M.suback(77, [0]), M.publish(b"t", b"y" * 600, ps=[(11, 1)])):
@@ -568,6 +592,21 @@ def c04(tier, rng):
         out.append(case("fill512-%d" % lead, phases["running"] + " ; deliver %s ; deliver %s ; poll 0 ; poll 1 ; poll 0" % (hx(stream[:512]), hx(stream[512:])),
                         ["running", "fill512"]))
         out.append(case("fill512w-%d" % lead, phases["running"] + " ; deliver %s ; poll 0 ; poll 1 ; poll 0" % hx(stream), ["running", "fill512"]))
+    # a User Property whose name is fine and whose value is not UTF-8, in every packet that can carry one, with somebody
+    # reading the properties afterwards
+    for bad in (b"\xff", b"\xc3", b"\xed\xa0\x80", b"ok\xfe"):
+        up = [(38, (b"name", bad))]
+        out.append(case("badup-publish-%s" % hx(bad), PRE + " ; start 0 0 sub f=61:2000 ; poll 0 ; deliver %s ; poll 0 ; tostream 0 ; deliver %s ; pollstream 0 ; pollstream 0"
+                        % (hx(M.suback(1, [2])), hx(M.publish(b"a", b"x", ps=[(11, 1)] + up))), ["running", "badup"]))
+        out.append(case("badup-disconnect-%s" % hx(bad), phases["running"] + " ; deliver %s" % hx(M.disconnect(139, up, "long")), ["running", "badup"]))
+        out.append(case("badup-puback-%s" % hx(bad), phases["running"] + " ; deliver %s ; poll 1" % hx(M.puback(1, 135, up)), ["running", "badup"]))
+        out.append(case("badup-suback-%s" % hx(bad), phases["running"] + " ; deliver %s ; poll 2" % hx(M.suback(2, [0], up)), ["running", "badup"]))
+        out.append(case("badup-connack-%s" % hx(bad), "connect ; deliver %s" % hx(M.connack(0, 135, up)), ["connecting", "badup"]))
+    # a write half that stops taking bytes (poll_write = Ok(0)) at every offset of what is being written: an error, never a spin
+    for k in range(0, 8):
+        out.append(case("zerowrite-connect-%d" % k, "werr0 %d ; connect ; deliver %s" % (k, hx(M.connack())), ["connecting", "zerowrite"]))
+        out.append(case("zerowrite-run-%d" % k, PRE + " ; werr0 %d ; start 0 0 pub q=1 t=61 pl=41 ; poll 0 ; poll 0" % k, ["running", "zerowrite"]))
+        out.append(case("zerowrite-ack-%d" % k, PRE + " ; werr0 %d ; deliver %s ; deliver %s" % (k, hx(M.publish(b"t", b"x", 1, 9)), hx(M.publish(b"t", b"y", 2, 10))), ["running", "zerowrite"]))
     # over-long variable byte integers, in the length field and in a property
     for v in (b"\xff\xff\xff\xff\x7f", b"\x80\x80\x80\x80\x00", b"\xff\xff\xff\x7f", b"\x80\x80\x80\x80\x80"):
         add("running", b"\x40" + v, ["varint5"])
